@@ -11,6 +11,7 @@ CONSTANTS
   KeepFlushedBlock = FALSE
   MetaAtomic = FALSE
   StartupIngest = TRUE
+  MetaSkipsEmptyBlock = FALSE
   MaxMeta = 1
   NpDp = 1
 INVARIANTS MetaDurable
